@@ -6,5 +6,6 @@ CONSTANTS
   MaxTrav = 2
 CONSTRAINT Bound
 CONSTANT HiddenSets <- NoHidden
+CONSTANT ClassMaps <- MixedMap
 VIEW MCView
-INVARIANTS TypeOK HiddenNeverSeen ExactlyOnceNoMutation StableExactlyOnce StrictlyIncreasing NoDuplicates EndsWithEmptyCursor BadCursorRejected PageShape IndexFresh ProbesOK WalkOK
+INVARIANTS TypeOK HiddenNeverSeen ExactlyOnceNoMutation StableExactlyOnce StrictlyIncreasing NoDuplicates EndsWithEmptyCursor BadCursorRejected PageShape IndexFresh EndClassExplicit ProbesOK WalkOK
